@@ -1248,20 +1248,39 @@ impl C14 {
         out.faults.insert("preemptions", switches);
         out.strategy = Some(p.strategy.name());
         // oracle: set equality with a fresh sequential generator; reproducibility
-        let reference = make();
-        let twin = make();
         let mut expect: BTreeSet<Uuid> = BTreeSet::new();
         let mut repro_ok = true;
-        muted(|| {
-            for _ in 0..all.len() {
-                let a = reference.next();
-                let b = twin.next();
-                if a != b {
-                    repro_ok = false;
+        let want = total as usize;
+        let oracle = guarded(|| {
+            let reference = make();
+            let twin = make();
+            muted(|| {
+                for _ in 0..want {
+                    let a = reference.next();
+                    let b = twin.next();
+                    if a != b {
+                        repro_ok = false;
+                    }
+                    expect.insert(a);
                 }
-                expect.insert(a);
-            }
+            })
         });
+        if oracle.is_err() || all.len() != want {
+            out.violations.push(Violation {
+                prop: "C14".into(),
+                sig: "C14/next-fails".into(),
+                at: 0,
+                detail: format!(
+                    "{} of {} calls returned an id (a call panicked: {:?}); generator starts at counter {}",
+                    all.len(),
+                    want,
+                    oracle.err().map(|f| f.brief()),
+                    p.start
+                ),
+            });
+            out.digest = 1;
+            return (out, schedule);
+        }
         let got: BTreeSet<Uuid> = all.iter().cloned().collect();
         let mut dg = Digest::default();
         for s in &schedule {
